@@ -1,3 +1,4 @@
+import numpy as np
 import scipy as sp
 
 from pygradflow.log import logger
@@ -15,6 +16,14 @@ class LUSolver(LinearSolver):
         except RuntimeError as err:
             logger.warn("LU decomposition failed: %s", err)
             raise LinearSolverError("LU decomposition failed")
+
+        # A singular matrix may escape the exact-zero pivot test of the
+        # factorization through rounding errors (pivot of size 1e-34 instead
+        # of 0), the solves would then return huge but finite garbage
+        pivots = np.abs(self.solver.U.diagonal())
+
+        if pivots.size > 0 and pivots.min() <= np.finfo(pivots.dtype).eps * pivots.max():
+            raise LinearSolverError("LU decomposition failed: singular matrix")
 
     def solve(self, rhs, trans=False, initial_sol=None):
         trans_str = "T" if trans else "N"
